@@ -2,7 +2,7 @@
    list with stable insertion), the two on-disk codecs car-index-sorted (0x0400, digest only)
    and car-multihash-index-sorted (0x0401): Load, Marshal, Unmarshal, GetAll, ForEach,
    WriteTo/ReadFrom.  Executable; proofs are in proofs/Index*.v. *)
-From GoCar Require Import Bytes Varint Cid.
+From GoCar Require Import Bytes Varint Cid Header.
 
 Record irec := mkrec { r_cid : bytes; r_code : N; r_digest : bytes; r_off : N }.
 
@@ -349,3 +349,42 @@ Definition idx_has_ties (i : index) : bool :=
   | IdxSorted m => mwi_has_ties m
   | IdxMh m => existsb (fun cm => mwi_has_ties (snd cm)) m
   end.
+
+(* ---- InsertionIndex.Marshal / Unmarshal (v2/index/insertionindex.go), AS THE CODE IS ---------------
+   Marshal writes the item count as a little-endian int64 and then cbor.Encode (whyrusleeping/cbor,
+   reflection based) of each index.Record{cid.Cid; Offset uint64} in tree order.  That encoder writes
+   a struct as a map of its EXPORTED fields; cid.Cid has none, so every record becomes
+       a2  63 "Cid"  a0  66 "Offset"  <unsigned offset>
+   -- the CID is not in the bytes.  The byte count Marshal returns is the constant 8 (the counter is
+   not advanced in the loop).  Unmarshal reads the count (int64 <= 0: nothing to do), decodes one
+   Record with the same library (a dependency: oracle [recdec], Ok rest / Err class) and calls
+   newRecordDigest on it, which panics because the decoded Cid is always the zero Cid
+   (multihash.Decode of an empty multihash).  See props/C11.v C11_insertion_index_* (refutations). *)
+(* whyrusleeping/cbor tagAuxOut for an unsigned integer: NOT the shortest form at the boundaries
+   (the tests are x < 0xff, x < 0xffff, x < 0xffffffff): 255, 65535 and 2^32-1 take the next size *)
+Definition wl_cbor_uint (n : N) : bytes :=
+  if n <=? 23 then [n2b n]
+  else if n <? 255 then [x18; n2b n]
+  else if n <? 65535 then x19 :: be_enc 2 n
+  else if n <? 4294967295 then x1a :: be_enc 4 n
+  else x1b :: be_enc 8 n.
+Definition ii_rec_cbor (off : N) : bytes :=
+  [xa2; x63; x43; x69; x64; xa0; x66; x4f; x66; x66; x73; x65; x74] ++ wl_cbor_uint off.
+Definition ii_marshal (ii : iidx) : bytes :=
+  le_enc 8 (N.of_nat (length ii)) ++ concat (map (fun r => ii_rec_cbor (r_off r)) ii).
+Definition ii_marshal_len (ii : iidx) : N := 8.
+
+Section InsertionCbor.
+  (* cbor.NewDecoder(r).Decode(&rec) on the stream: the bytes left, or the error class *)
+  Variable recdec : bytes -> res bytes.
+
+  Definition ii_unmarshal (s : bytes) : res (iidx * bytes) :=
+    if blen s <? 8 then Err (if blen s =? 0 then EEof else EUnexpectedEof)   (* binary.Read, error unmapped *)
+    else
+      let n := le_dec (take 8 s) in
+      if (n =? 0) || (two63 <=? n) then Ok ([], drop 8 s)     (* for i := int64(0); i < length *)
+      else match recdec (drop 8 s) with
+           | Err e => Err e
+           | Ok _ => Err EPanic                                (* newRecordDigest(rec): panic(err) *)
+           end.
+End InsertionCbor.
